@@ -23,6 +23,7 @@ logger = logging.getLogger(__name__)
 from inspect import isgenerator
 
 from spyne import EventManager, Ignored
+from spyne.application import get_fault_string_from_exception
 from spyne.auxproc import process_contexts
 from spyne.model import Fault, PushBase
 from spyne.protocol import ProtocolBase
@@ -86,6 +87,20 @@ class ServerBase(object):
 
             ctx.fire_event('method_exception_object')
 
+        # an exception that is not a Fault must not leave the context without
+        # its method_exception_object and method_context_closed events. This is
+        # what Application.process_request does for the user code.
+        except Exception as e:
+            logger.exception(e)
+
+            ctx.in_object = None
+            ctx.in_error = ctx.out_error = Fault('Server',
+                                             get_fault_string_from_exception(e))
+
+            retval = (ctx,)
+
+            ctx.fire_event('method_exception_object')
+
         return retval
 
     def get_in_object(self, ctx):
@@ -104,6 +119,15 @@ class ServerBase(object):
             ctx.in_object = None
             ctx.in_error = e
             ctx.out_error = e
+
+            ctx.fire_event('method_exception_object')
+
+        except Exception as e:
+            logger.exception(e)
+
+            ctx.in_object = None
+            ctx.in_error = ctx.out_error = Fault('Server',
+                                             get_fault_string_from_exception(e))
 
             ctx.fire_event('method_exception_object')
 
